@@ -64,6 +64,8 @@ type ObjInfo struct {
 }
 
 type TreeResult struct {
+	Written   map[string]bool // pass 1: pre-existing memory slots written by some goroutine
+	Opaque    bool            // some shared memory is not integer-typed (value not tracked)
 	Templates map[string]*Template
 	Order     []string
 	Objects   map[string]*ObjInfo
@@ -95,8 +97,16 @@ type treeConc struct {
 	ghost   map[string]*value
 	maxEvents int
 	maxRecv   int
+	// automatic detection of shared memory: pre = slots that existed when the
+	// current thread started (name by allocation order); written = pre-existing
+	// slots some thread stores to (pass 1); auto = names treated as shared (pass 2)
+	pre       map[*value]string
+	written   map[string]bool
+	auto      map[string]bool
+	discover  bool
 	used      map[string]bool
 	recvCount map[string]int
+	opaque    bool
 }
 
 func (t *treeConc) pos(fr *frame) string {
@@ -339,6 +349,9 @@ func (t *treeConc) spawn(fr *frame, instr *ssa.Go, fn value, args []value) {
 	}
 	t.spawns = append(t.spawns, spawnRec{name, fn, args})
 	t.emit(Event{Kind: "spawn", Template: name, Pos: t.pos(fr)})
+	if t.discover || len(t.auto) > 0 {
+		t.indexPre() // what this thread allocated so far is now visible to the new goroutine
+	}
 }
 
 // allocPath names a memory cell by the allocation (in program order) that
@@ -491,6 +504,91 @@ func (t *treeConc) atomicOp(fr *frame, op string, addr *value, args []value) val
 	return t.cellOp(fr, op, addr, args, false, "")
 }
 
+// indexPre records every memory slot that exists now (heap allocations and
+// slices with their nested struct/array slots).
+func (t *treeConc) indexPre() {
+	t.pre = map[*value]string{}
+	var walk func(cell *value, name string, depth int)
+	walk = func(cell *value, name string, depth int) {
+		t.pre[cell] = name
+		if depth > 5 {
+			return
+		}
+		switch v := (*cell).(type) {
+		case structure:
+			for k := range v {
+				walk(&v[k], fmt.Sprintf("%s_f%d", name, k), depth+1)
+			}
+		case array:
+			if len(v) <= 64 {
+				for k := range v {
+					walk(&v[k], fmt.Sprintf("%s_e%d", name, k), depth+1)
+				}
+			}
+		}
+	}
+	for idx, cell := range t.i.allocs {
+		walk(cell, fmt.Sprintf("a%d", idx), 0)
+	}
+	for idx, sl := range t.i.slices {
+		full := sl[:cap(sl)]
+		for k := range full {
+			walk(&full[k], fmt.Sprintf("s%d_e%d", idx, k), 1)
+		}
+	}
+}
+
+// sharedAccess is called for every load/store through a pointer in tree mode.
+// It returns (value, true) when the access was turned into an event.
+func (t *treeConc) sharedAccess(fr *frame, addr *value, store bool, v value) (value, bool) {
+	if t.pre == nil {
+		return nil, false
+	}
+	name, ok := t.pre[addr]
+	if !ok {
+		return nil, false
+	}
+	if t.discover {
+		if store {
+			t.written[name] = true
+		}
+		return nil, false
+	}
+	if !t.auto[name] {
+		return nil, false
+	}
+	cell := "cell_auto_" + name
+	if _, known := t.objs[cell]; !known {
+		oi := &ObjInfo{Name: cell, Kind: "cell", Width: 64}
+		if k, isK := kindOf(*addr); isK && !isSym(*addr) {
+			if _, _, isInt := kindInfo(k); isInt {
+				oi.Init = uint64(asInt64(*addr))
+			}
+		}
+		t.objs[cell] = oi
+	}
+	if k, isK := kindOf(*addr); isK {
+		if _, _, isInt := kindInfo(k); isInt {
+			// integer cell: value tracked by the BMC
+			t.shared[addr] = cell
+			if store {
+				t.cellOp(fr, "store", addr, []value{v}, true, "")
+				return nil, true
+			}
+			return t.cellOp(fr, "load", addr, nil, true, ""), true
+		}
+	}
+	// other types: the access is an event for the race query, the value is the
+	// thread's own view (such models must not be used for value-dependent queries)
+	t.opaque = true
+	if store {
+		t.emit(Event{Kind: "store", Obj: cell, Plain: true, Pos: t.pos(fr)})
+		return nil, false
+	}
+	t.emit(Event{Kind: "load", Obj: cell, Plain: true, Pos: t.pos(fr)})
+	return nil, false
+}
+
 // ---- extraction driver ----
 
 type TreeCfg struct {
@@ -502,6 +600,9 @@ type TreeCfg struct {
 func (eng *Engine) runThread(i *interpreter, tc *treeConc, fn value, args []value) (p *ThreadPath, aborted *abortPath) {
 	tc.path = &ThreadPath{}
 	tc.recvCount = map[string]int{}
+	if tc.discover || len(tc.auto) > 0 {
+		tc.indexPre()
+	}
 	nv := len(i.ex.nondets)
 	defer func() {
 		for _, n := range i.ex.nondets[nv:] {
@@ -560,7 +661,7 @@ func (eng *Engine) ExtractTrees(cfg HarnessCfg) (*TreeResult, error) {
 	if cfg.Unwind > 0 {
 		ex.Unwind = cfg.Unwind
 	}
-	res := &TreeResult{Templates: map[string]*Template{}, Objects: map[string]*ObjInfo{}, Root: root.String(), Ex: ex, Ctx: ex.Ctx}
+	res := &TreeResult{Written: map[string]bool{}, Templates: map[string]*Template{}, Objects: map[string]*ObjInfo{}, Root: root.String(), Ex: ex, Ctx: ex.Ctx}
 	res.Templates[res.Root] = &Template{Name: res.Root}
 	res.Order = []string{res.Root}
 	maxPaths := 4000
@@ -578,7 +679,8 @@ func (eng *Engine) ExtractTrees(cfg HarnessCfg) (*TreeResult, error) {
 		for {
 			ex.beginRun()
 			i := eng.newInterp(ex, pkg)
-			tc := &treeConc{i: i, names: map[interface{}]string{}, objs: res.Objects, counter: map[string]int{}, codecs: map[*channel]chanCodec{}, shared: map[*value]string{}, ghost: map[string]*value{}, maxEvents: cfg.MaxEvents, maxRecv: cfg.MaxRecv, used: map[string]bool{}}
+			tc := &treeConc{i: i, names: map[interface{}]string{}, objs: res.Objects, counter: map[string]int{}, codecs: map[*channel]chanCodec{}, shared: map[*value]string{}, ghost: map[string]*value{}, maxEvents: cfg.MaxEvents, maxRecv: cfg.MaxRecv, used: map[string]bool{},
+				discover: cfg.Discover, written: res.Written, auto: cfg.AutoShared}
 			i.conc = tc
 			i.tree = tc
 			ex.onAssume = func(g *smt.Term) {
@@ -653,6 +755,9 @@ func (eng *Engine) ExtractTrees(cfg HarnessCfg) (*TreeResult, error) {
 				}
 			} else {
 				ex.inconclusive("tree", "could not re-create the spawn of "+tmpl.Name)
+			}
+			if tc.opaque {
+				res.Opaque = true
 			}
 			ex.endRun()
 			ex.Paths++
